@@ -136,3 +136,19 @@ func (fv *FuncVC) assumeFrameInvariants(h *ssa.BasicBlock) {
 		}
 	}
 }
+
+// bindFreeVars: inside contracts of closures a captured variable's name denotes its current value
+// (the SSA free variable itself is a pointer to the captured variable).
+func (fv *FuncVC) bindFreeVars(env *Env, st *State) {
+	if fv.fn == nil {
+		return
+	}
+	for _, f := range fv.fn.FreeVars {
+		pv, ok := fv.params[f.Name()]
+		if !ok {
+			continue
+		}
+		env.vars["&"+f.Name()] = pv
+		env.vars[f.Name()] = fv.loadPlace(st, fv.placeFromPointer(pv))
+	}
+}
